@@ -94,6 +94,66 @@ func checkZipper(oldFn, newFn *ssa.Function, report func(cls, detail string, ext
 			report("C09/zipper-maps-out-of-lockstep", fmt.Sprintf("reverse map has `%s` <- `%s` but the forward map disagrees", fmtInstr(o), fmtInstr(n)), extra)
 		}
 	}
+	// the surviving pairs respect the control flow (C04): blocks correspond through their matched
+	// terminators; a pair sits in corresponding blocks, in the order of the other pairs of the block;
+	// successors of a matched terminator and incoming edges of a matched phi correspond position by
+	// position wherever both ends are mapped
+	blockOf := map[*ssa.BasicBlock]*ssa.BasicBlock{}
+	for _, b := range oldFn.Blocks {
+		if k := len(b.Instrs); k > 0 {
+			if t, ok := fwd[b.Instrs[k-1]]; ok && t.Block() != nil {
+				blockOf[b] = t.Block()
+			}
+		}
+	}
+	posNew := map[ssa.Instruction]int{}
+	for _, nb := range newFn.Blocks {
+		for k, in := range nb.Instrs {
+			posNew[in] = k
+		}
+	}
+	edgesOK := func(a, b []*ssa.BasicBlock) bool {
+		if len(a) != len(b) {
+			return false
+		}
+		for k := range a {
+			if m, ok := blockOf[a[k]]; ok && m != b[k] {
+				return false
+			}
+		}
+		return true
+	}
+	for bi, b := range oldFn.Blocks {
+		nb, ok := blockOf[b]
+		if !ok {
+			continue
+		}
+		if bi == 0 && len(newFn.Blocks) > 0 && nb != newFn.Blocks[0] {
+			report("C04/zipper-match-ignores-control-flow", "the entry block is matched with a block that is not the entry", extra)
+		}
+		last := -1
+		for idx, in := range b.Instrs {
+			m, matched := fwd[in]
+			if !matched {
+				continue
+			}
+			switch {
+			case m.Block() != nb:
+				report("C04/zipper-match-ignores-control-flow", fmt.Sprintf("`%s` (block %d) is paired with `%s` in block %d, but block %d corresponds to block %d", fmtInstr(in), b.Index, fmtInstr(m), m.Block().Index, b.Index, nb.Index), extra)
+			case posNew[m] < last:
+				report("C04/zipper-match-ignores-control-flow", fmt.Sprintf("`%s` is paired with `%s`, which comes BEFORE the partner of an earlier instruction of the block", fmtInstr(in), fmtInstr(m)), extra)
+			case idx == len(b.Instrs)-1 && !edgesOK(b.Succs, nb.Succs):
+				report("C04/zipper-match-ignores-control-flow", fmt.Sprintf("terminator `%s` is paired with `%s` but their successors do not correspond", fmtInstr(in), fmtInstr(m)), extra)
+			default:
+				if _, isPhi := in.(*ssa.Phi); isPhi && !edgesOK(b.Preds, nb.Preds) {
+					report("C04/zipper-match-ignores-control-flow", fmt.Sprintf("phi `%s` is paired with `%s` but their incoming edges do not correspond", fmtInstr(in), fmtInstr(m)), extra)
+				}
+				if posNew[m] > last {
+					last = posNew[m]
+				}
+			}
+		}
+	}
 	if art.MatchedNodes != len(fwd) {
 		report("C09/zipper-matched-count", fmt.Sprintf("MatchedNodes=%d but %d pairs", art.MatchedNodes, len(fwd)), extra)
 	}
